@@ -5,6 +5,9 @@ use std::io::Write;
 pub trait State {
     /// execute one op line on the real code, return the canonical output line
     fn step(&mut self, ws: &[&str]) -> String;
+    /// called once per case with the op lines that follow (up to the next `#case`), before the first `step`:
+    /// streams whose ops are independent child processes use it to run them concurrently
+    fn prefetch(&mut self, _upcoming: &[String]) {}
 }
 
 pub struct StreamDef {
